@@ -148,7 +148,7 @@ def conditions(tier):
                     for first in ((0, 1, 2) if has_old else (None,)):  # split by the first scheduled site (parallelism only)
                         pre = [" and ".join(f"0 <= k{i} <= 2" for i in range(m))] + ([f"k0 == {first}"] if first is not None else [])
                         name = f"sites_{layout}_{'old' if has_old else 'new'}_{''.join(sorted(c[0] for c in approved)) or 'none'}_m{m}" + (f"_k{first}" if first is not None else "")
-                        conds.append(Cond(name, mkfn(name, params, body, GLB, pre=pre), timeout=1200, group="sites-" + layout,
+                        conds.append(Cond(name, mkfn(name, params, body, GLB, pre=pre), timeout=1200 if q else 2700, group="sites-" + layout,
                                           bounds=f"layout `{layout}`: 3 call sites (<=, >=, in), {m} evaluations in every interleaving (symbolic schedule{', first site %d' % first if first is not None else ''}) split over two tests, values symbolic, {'previous values c0, c1, [c2, c3]' if has_old else 'empty snapshots'}, approved {sorted(approved)}"))
     for form in ("plain", "list", "dict", "is", "is_list", "is_dict_item"):
         name = f"reeval_{form}"
